@@ -83,9 +83,12 @@ CHECKS["C11"] = dict(
         "gradients are interior (smooth limiters: within C12's regularisation tolerance); the named schemes carry the kappa "
         "of the statement; the space operator of linear convection on the real uniform periodic mesh equals the wrapped "
         "kappa stencil for symbolic kappa, both convection signs, n>=5 symbolic (seam cells and generic interior cell) and "
-        "n=1..4 concrete.",
-   note=TB + "; mesh contract of C20 as hypothesis for the exactness clauses; 2-D directional stencil is decided with the "
-        "2-D machinery of C14/C15.",
+        "n=1..4 concrete. 2-D (periodic Cartesian grid, symbolic nx, ny >= 1, kappa, generic cell): along x and along y the "
+        "left/right face states of extrapol2dk(kappa) are the kappa-scheme states of the cells of that row / column (periodic "
+        "wrap included) for every primitive component, and extrapol2d1 returns the adjacent cell values.",
+   note=TB + "; mesh contract of C20 as hypothesis for the exactness clauses; 2-D: stated on the face states (flowdyn has no "
+        "2-D linear-convection model; the stencil of an operator that is linear in the face states follows as in 1-D); "
+        "cons2prim through its pointwise contract (C15 leaf).",
    ref="§6 C11")
 
 CHECKS["C01"] = dict(
@@ -105,7 +108,7 @@ CHECKS["C01"] = dict(
    note=TB + "; mesh contract (C20) as hypothesis; flux contract clauses proved in C02/C16; floating-point intermediates "
         "assumed finite (no safety obligations here: unlimited reconstructions may give inadmissible face states); 2-D: the "
         "double telescoping sum over rows and columns is the sum-induction lemma applied twice (schema trusted, premises "
-        "discharged).",
+        "discharged). The check also discharges the wall clause of the flux contract for every flux (uses:C16/wall/*).",
    ref="§6 C01")
 
 CHECKS["C15"] = dict(
@@ -153,10 +156,10 @@ CHECKS["C03"] = dict(
         "returns the state (both sides, in its regime); with periodic, same-state dirichlet and every matched inlet x outlet "
         "pair every face sees (W,W), so by flux consistency the residual of every equation vanishes, for every model and "
         "reconstruction (quick tier: every reconstruction with representative pairs + every pair with extrapol1/2; thorough: "
-        "full product); nozzle at rest for an abstract section law. Integrators: R(Q*)=0 => step(Q*)=Q* follows from the "
+        "full product); nozzle at rest for an abstract section law. 2-D (fvm2dcart, euler2d, extrapol2d1 / extrapol2dk with symbolic kappa, symbolic nx, ny, lx, ly, generic cell): the residual of a uniform state vanishes with periodic closure at any flow angle and with matched insub/outsub, outsub/insub, insup/outsup and wall closures for a flow along the inlet normal (inlet/outlet conditions through the derived contract 'matched 2-D condition with the velocity along its normal returns the state' = C15 leaf bc/*/one-dimensional composed with the 1-D fixed-point leaf; walls, periodic copies, gradients, reconstruction and flux assembly are the real code). Integrators: R(Q*)=0 => step(Q*)=Q* follows from the "
         "normal forms of C05 (explicit) and the linear systems of C06 (implicit).",
    note=TB + "; flux consistency from C02, mesh contract from C20, power laws as lemma instances; 2-D operator pending the "
-        "2-D machinery.",
+        "2-D machinery. The check also discharges the flux consistency clause it instantiates (uses:C02/*/consistency).",
    ref="§6 C03")
 CHECKS["C05"] = dict(
    technique="contract-based deductive verification: step() of every explicit integrator class executed symbolically against "
@@ -182,7 +185,7 @@ CHECKS["C06"] = dict(
         "(1+z/2)/(1-z/2) for Re z<=0; orders 1/2/2.",
    note=TB + "; numpy.linalg.solve assumed (M x = b, nonsingular); the linear-system identities are a bounded stand-in in the "
         "mesh size (loops of calc_jacobian unrolled), stated in the evidence under bounded_standins; 'Jacobian equals the "
-        "derivative' for nonlinear operators is a limit statement: decided as difference-quotient form + step window.",
+        "derivative' for nonlinear operators is a limit statement: decided as difference-quotient form + step window. gear: the history invariant is proved inductively (Crank-Nicolson start establishes it, one step from an arbitrary state with a history satisfying it re-establishes it and satisfies the BDF2 recurrence).",
    ref="§6 C06")
 
 CHECKS["C07"] = dict(
@@ -229,7 +232,7 @@ CHECKS["C14"] = dict(
         "generic cell; grids as small as 1x1 included).",
    note=TB + "; mesh contract (uniform, C20) and flux contract (pointwise function, C01) as hypotheses; 2-D: cons2prim and "
         "numflux through their pointwise contracts (leaf clauses in C15 cons2prim/*, C01 flux/*/pointwise), the rest of "
-        "fvm2dcart.rhs is the real code.",
+        "fvm2dcart.rhs is the real code. The check also discharges the pointwise contracts it instantiates (uses:C01/flux/*/pointwise, uses:C15/cons2prim/*).",
    ref="§6 C14")
 
 CHECKS["C13"] = dict(
@@ -253,7 +256,7 @@ CHECKS["C13"] = dict(
         "halves, x**y/log of dimensionless arguments, the literal 0 of any unit); 'bit for bit for powers of two' is the "
         "per-operation floating-point lemma stated in the evidence (no overflow/underflow), exercised on the real code by the "
         "replay (three factor triples, O(1) and 1e-9 / 1e-19 variations); nozzle not typed (same operator as euler1d plus the "
-        "section law's own unit); integrators/driver by linearity in the residuals (normal forms C05-C07).",
+        "section law's own unit); integrators/driver by linearity in the residuals (normal forms C05-C07). The check also discharges the leaf contracts the reflection proof instantiates (uses:C02/*/mirror, selection; uses:C12/*/scalar).",
    ref="§6 C13, §11")
 
 CHECKS["C09"] = dict(
@@ -269,7 +272,7 @@ CHECKS["C09"] = dict(
         "patterns and seeded random fields, 4 limiters x 3 integrators x 3 CFL), reported under bounded_standins; the "
         "deductive local lemma for Burgers is attempted in the thorough tier only (144-case split, partly undecided).",
    note=TB + "; Harten's lemma is a Lean 4/Mathlib proof (lean/Harten.lean) re-checked in the thorough tier only; Burgers "
-        "part bounded, never counted in obligations/discharged.",
+        "part bounded, never counted in obligations/discharged. The check also discharges the limiter contract it is stated over (uses:C12/*/scalar, array).",
    ref="§6 C09")
 
 CHECKS["C10"] = dict(
